@@ -29,6 +29,8 @@ import (
 	"sigs.k8s.io/controller-runtime/pkg/client/fake"
 )
 
+const redisPassword = "r3d1s-Pa55"
+
 const (
 	appHost   = "app.test"
 	chainHdr  = "x-verif-chain"
@@ -487,9 +489,16 @@ func (d *driver) setup(spec CfgSpec) error {
 					return err
 				}
 				m.SetTime(baseTime.Add(time.Duration(d.now) * time.Second))
+				if strings.HasPrefix(srvName, "redisauth") {
+					m.RequireAuth(redisPassword) // a server that wants a password: the URI carries it
+				}
 				e.mr[srvName] = m
 			}
-			o["redis_session_store_config"] = map[string]any{"server_uri": "redis://" + m.Addr() + db}
+			auth := ""
+			if strings.HasPrefix(srvName, "redisauth") {
+				auth = ":" + redisPassword + "@"
+			}
+			o["redis_session_store_config"] = map[string]any{"server_uri": "redis://" + auth + m.Addr() + db}
 		}
 		ftype := "oidc"
 		if f.Override {
